@@ -49,3 +49,14 @@ def purity(seed, tier, quick=(60, 40), thorough=(3000, 50)):
     a, b = quick if tier == "quick" else thorough
     r = P.run(seed, a, b)
     return dict(ok=r["ok"], cases=r["cases"], distinct_nontrivial=r["cases"], traces=r["traces"], ops=r["ops"], alias_probes=r["alias_probes"], samples=r["samples"], disagreements=r["disagreements"][:3])
+
+
+def g2o(seed, tier, quick=(1500, 800), thorough=(10000, 5000)):
+    """C13 / C14: the .g2o model (driver gsdriver_g2o) vs Graph.to_g2o / Graph.from_g2o / load.py on real temporary files"""
+    from harness import g2o as G
+
+    n_graphs, n_files = quick if tier == "quick" else thorough
+    r = G.run(seed, n_graphs, n_files)
+    keys = ("export_cases", "import_cases", "char_cases", "export_outcomes", "import_outcomes", "loaders", "line_kinds", "element_kinds", "cycles", "defects", "spellings",
+            "max_lines", "warnings_seen", "nan_atoms_outside_assumption", "idempotence", "not_modelled")
+    return dict(ok=r["ok"], cases=r["cases"], distinct_nontrivial=r["distinct_nontrivial"], samples=r["samples"], disagreements=r["disagreements"][:4], errors=r["assumption_failures"], **{k: r[k] for k in keys})
